@@ -13,7 +13,7 @@ REQUIRED = ['getNBest_scale', 'plurality_scale', 'highestAverages_scale', 'sumVa
             'relativeThreshold_scale', 'quotaDistributor_scale', 'largestRemainder_scale',
             'rankedToPositional_linear', 'approvalToSimple_linear', 'rankedToCondorcet_linear', 'positionalRule_scale',
             'approvalRule_scale', 'condorcetEv_scale', 'condorcetSet_scale', 'rankedToCondorcetVotes_linear',
-            'condorcetRule_scale', 'condorcetSetRule_scale', 'benham_scale', 'tideman_scale',
+            'condorcetRule_scale', 'condorcetSetRule_scale', 'benham_scale', 'tideman_scale', 'tidemanN_scale',
             'spav_scale', 'pav_scale', 'pav_fresh_scale',
             'scoreVoting_scale', 'scoreAggregate_scale', 'majorityJudgmentPlus_scale', 'star_scale',
             'bucklin_scale', 'bucklinWhole_scale', 'preferenceAddition_scale', 'bucklinSeats_scale', 'oklahoma_scale',
@@ -32,9 +32,7 @@ PROVED_FAMILIES = ['plurality', 'ha_d_hondt', 'ha_sainte_lague', 'ha_imperiali',
                    'score_mean', 'score_sum0', 'score_median', 'majority_judgment_plus', 'star', 'bucklin',
                    'oklahoma', 'baldwin', 'stv_gregory_hare']
 # proved for a part of the family's parameter space only: the rest stays listed as unproved
-PARTLY_PROVED = {'tideman_alternative': 'n_seats > 1 (only the single-winner tier is modelled: C05; with more seats the implementation '
-                                        'always raises - RANKED_SUBSETTER.convert is called without its subset argument, sequential.py '
-                                        'L671: TypeError/KeyError/IndexError on 229 of 229 generated cases - so there is no evaluator to model)'}
+PARTLY_PROVED = {}
 MULTIPLIERS = [2, 3, 7, 10 ** 6, 10 ** 25 + 7]
 SMALL_MULTIPLIERS = [2, 3, 7]
 BIG_MULTIPLIERS = [10 ** 25 + 7, 2 ** 70 + 1, 3 * 10 ** 30 + 11, 10 ** 25 + 7]     # directed boundary cases
@@ -159,7 +157,7 @@ NOT_VERIFIED = ['returned numeric TYPES (int/Fraction/Decimal, never float) are 
                 'depends on frozenset iteration); the converter model is checked against it as a map on every case',
                 'order among equally valued winners listed individually (positional / approval / score / PAV / second-order Copeland) is '
                 'compared up to permutation inside runs of equal value (Python set iteration order)',
-                'Benham / Tideman: the Lean models are the one-seat evaluators (C05); Bucklin / Oklahoma / Baldwin run through the n-seat models '
+                'Benham is a one-seat evaluator (it asserts n_seats == 1); Tideman runs through tidemanN (one tier per seat, C05); Bucklin / Oklahoma / Baldwin run through the n-seat models '
                 'of the C08 extension (shared ranks are iterated in protocol order there: compared order-insensitively on such profiles); '
                 'the score-family model expands one '
                 'element per vote like the code, so it is run on profiles of at most 5000 votes']
@@ -403,10 +401,14 @@ def model_line(case):
             return {'op': 'preference_addition', 'votes': prof, 'n': case['n'], 'coef': f, 'split': True}
         if f == 'baldwin':
             return {'op': 'baldwin', 'votes': prof, 'n': case['n']}
-        if f in ('benham', 'tideman_alternative'):
+        if f == 'benham':
             if case['n'] != 1:
-                return None          # the C05 models are the single-winner evaluators
-            return {'op': 'benham' if f == 'benham' else 'tideman', 'profile': prof}
+                return None          # Benham asserts n_seats == 1
+            return {'op': 'benham', 'profile': prof}
+        if f == 'tideman_alternative':
+            if case['n'] == 1 and 'one_seat' in case.get('_tags', ()):
+                return {'op': 'tideman', 'profile': prof}                 # the one-seat evaluator `tideman`
+            return {'op': 'tideman', 'profile': prof, 'n': case['n']}      # `tidemanN`: one tier per seat
         if f in SCORE_CFG:
             votes = enc_score(prof)
             if votes is None:
@@ -512,10 +514,10 @@ LEVEL_TEXT = ('Scale invariance is a Lean theorem, for ALL inputs of the model a
               'quota selector, all divisor methods, RelativeThreshold, QuotaDistributor and LargestRemainder with the homogeneous quotas (every '
               'over-award policy, any previous gains and caps), the converters (linear maps) and hence positional rules and (satisfaction) '
               'approval voting, every entry of condorcet.EVALUATORS on arbitrary pairwise dictionaries and composed with RankedToCondorcetVotes, '
-              'Condorcet winner / Smith / Schwartz sets, Benham, Tideman alternative (one seat), PAV (from any state of its coefficient cache), '
+              'Condorcet winner / Smith / Schwartz sets, Benham, Tideman alternative (any number of seats), PAV (from any state of its coefficient cache), '
               'SPAV, PreferenceAddition with any coefficient function and any number of seats (Bucklin, Oklahoma), Baldwin, STV with Gregory transfers and a homogeneous quota (selector and distributor); for positive natural '
               'factors: ScoreVoting sum/mean/lower median, MajorityJudgment with the plus tie-break, STAR. Near-tie separation and equal-rational '
-              'ties are theorems over all rationals. Unproved (oracle only): Tideman alternative with several seats (the implementation always raises there); '
+              'ties are theorems over all rationals. Nothing scale-free is left to the oracle alone; '
               'MajorityJudgment with the default tie-break is scale DEPENDENT (open finding). Returned numeric types are monitored (no float).')
 LEVEL_NOTE = ('Trusted: Lean kernel + standard axioms; the models of C01/C02/C03/C05/C06/C08(sequential)/C09/C12/C13/C16/C17 tied to the code by correspondence '
               '(re-run here on the scaled profiles); CPython int/Fraction exactness. Partial: the families listed as unproved are decided by the '
